@@ -486,3 +486,42 @@ func cutThenTrailer() []corpus.Seed {
 	}
 	return out
 }
+
+// hugeLarge: every box type once with a 64-bit size header announcing 2^63, 2^63+16, 2^63+1000 or
+// 2^64-1 bytes (values that are negative as int64) in front of the first bytes of its payload.
+func hugeLarge() []corpus.Seed {
+	var out []corpus.Seed
+	best := map[string]*corpus.Seed{}
+	for i := range cor.Boxes {
+		b := &cor.Boxes[i]
+		if len(b.Data) < 8 {
+			continue
+		}
+		if cur := best[b.Type]; cur == nil || len(b.Data) < len(cur.Data) {
+			best[b.Type] = b
+		}
+	}
+	var types []string
+	for t := range best {
+		types = append(types, t)
+	}
+	sort.Strings(types)
+	for _, t := range types {
+		sd := best[t]
+		pl := sd.Data[8:]
+		if len(pl) > 32 {
+			pl = pl[:32]
+		}
+		for _, sz := range []uint64{1 << 63, 1<<63 + 16, 1<<63 + 1000, 1<<64 - 1} {
+			d := make([]byte, 16, 16+len(pl))
+			d[3] = 1
+			copy(d[4:8], sd.Data[4:8])
+			for i := 0; i < 8; i++ {
+				d[8+i] = byte(sz >> (56 - 8*i))
+			}
+			d = append(d, pl...)
+			out = append(out, corpus.Seed{Name: fmt.Sprintf("%s#largesize=%#x", sd.Name, sz), Kind: "crafted", Type: t, Data: d})
+		}
+	}
+	return out
+}
